@@ -122,6 +122,48 @@ func loadSources(spec string) ([]projSrc, error) {
 		if err != nil {
 			return nil, err
 		}
+	case strings.HasPrefix(spec, "toks:"):
+		// any TLC output whose emissions carry a token list "doc" (MC_C10sites, MC_C10, MC_C03 ...): every document, the build decides
+		if err := loadPools(spec[5:]); err != nil {
+			return nil, err
+		}
+		seen := map[string]struct{}{}
+		err := forEachEmitted(spec[5:], "E", func(js string) error {
+			var cs struct {
+				Doc []Tok `json:"doc"`
+			}
+			if err := json.Unmarshal([]byte(js), &cs); err != nil || len(cs.Doc) == 0 {
+				return err
+			}
+			text := renderTokens(cs.Doc, false, canon).text
+			if cs.Doc[0].K != "JSIGHT" {
+				text = "JSIGHT 0.3\n" + text
+			}
+			if _, dup := seen[text]; !dup {
+				seen[text] = struct{}{}
+				out = append(out, projSrc{name: fmt.Sprintf("toks:%d", len(out)+1), text: text})
+			}
+			return nil
+		})
+		if err != nil {
+			return nil, err
+		}
+	case strings.HasPrefix(spec, "types:"):
+		// the type graphs of MC_C01types at every use site
+		err := forEachEmitted(spec[6:], "E", func(js string) error {
+			var cs struct {
+				G    []typeShape `json:"g"`
+				Site string      `json:"site"`
+			}
+			if err := json.Unmarshal([]byte(js), &cs); err != nil {
+				return err
+			}
+			out = append(out, projSrc{name: fmt.Sprintf("types:%d", len(out)+1), text: renderTypeGraph(cs.G, cs.Site)})
+			return nil
+		})
+		if err != nil {
+			return nil, err
+		}
 	default:
 		return nil, fmt.Errorf("unknown source %q", spec)
 	}
